@@ -18,12 +18,6 @@ from interp import Undecided, State, Ref, Const
 import listmodel
 from rules_struct import rawlock_impl_fns, HL_SEM, _floc
 
-ALG_UTILS = {
-    "collection::utils::ordered_write": ("ACQ", "W"), "collection::utils::ordered_read": ("ACQ", "R"),
-    "collection::utils::ordered_try_write": ("TRY", "W"), "collection::utils::ordered_try_read": ("TRY", "R"),
-    "collection::utils::attempt_to_recover_writes_from_panic": ("RECOVER", "W"),
-    "collection::utils::attempt_to_recover_reads_from_panic": ("RECOVER", "R"),
-}
 RETRY = "collection::RetryingLockCollection"
 QUICK_N = 3
 THOROUGH_N = 4
@@ -46,7 +40,7 @@ def explore(ctx, fn, n, mode, kind, faults=1, loop_limit=None, preheld=None):
     I = ctx.M["make"]()
     # the algorithms themselves are analysed, not summarised
     for p in list(I.primitives):
-        if p.startswith("collection::utils::ordered_") or p.startswith("collection::utils::attempt_to_recover"):
+        if ctx.A.mode_kind(ctx.A.role_of(p)):
             del I.primitives[p]
     I.max_faults = faults
     I.loop_limit = loop_limit or (n + 3)
@@ -56,7 +50,9 @@ def explore(ctx, fn, n, mode, kind, faults=1, loop_limit=None, preheld=None):
     def prim_get_locks(I_, st_, fn_, tdef, args, line, dest_ty, may_unwind):
         I_.emit(st_, {"k": "PRIM", "def": tdef, "args": args}, fn_, line)
         return [("ret", lst, st_)]
-    I.primitives["collection::utils::get_locks_unsorted"] = prim_get_locks
+    for role in ("get_locks_unsorted", "get_locks"):
+        if role in ctx.A.by_role:
+            I.primitives[ctx.A.by_role[role]] = prim_get_locks
     m = fn["mir"]
     args = []
     for i in range(1, m["arg_count"] + 1):
@@ -122,7 +118,11 @@ def alg_functions(ctx):
     """(fn, label, kind, mode, preheld)"""
     out = []
     F = ctx.F
-    for path, (kind, mode) in ALG_UTILS.items():
+    for path, role in sorted(ctx.A.role.items()):
+        km = ctx.A.mode_kind(role)
+        if not km:
+            continue
+        kind, mode = km
         try:
             f = F.fn(path)
         except KeyError:
